@@ -25,13 +25,17 @@ COMPILER_REPLAYS = {
     "u_anf": ["replay/c09/anf_order.sh"],
     "u_diagord": ["replay/c13/missing_methods/run.sh", "replay/c13/unknown_fields/run.sh"],
     "u_occurs": ["replay/c04/occurs/run.sh"],
-    "u_tmono": ["replay/c07/run.sh", "replay/c04/recursive_generic/run.sh", "replay/c07/field_type_app.sh"],
+    "u_tmono": ["replay/c07/run.sh", "replay/c04/recursive_generic/run.sh", "replay/c07/field_type_app.sh", "replay/c07/instance_user_type.sh"],
     "u_mcall": ["replay/c07/call_instances.sh", "replay/c07/generic_value.sh", "replay/c07/generic_value_in_generic.sh"],
     "u_link": ["replay/c13/link_error/run.sh"],
     "u_art": ["replay/c15/foreign_core.sh"],
     "u_scope": ["replay/c05/run.sh", "replay/c05/shadow_toplevel.sh", "replay/c05/duplicate_params.sh", "replay/c05/ctor_shadows_param.sh", "replay/c06/crossfile_ctor.sh", "replay/c16/let_annotation.sh"],
     "u_closenv": ["replay/c08/run.sh"],
-    "u_envname": ["replay/c08/env_names.sh"],
+    "u_envname": ["replay/c08/env_names.sh", "replay/c19/closure_env_user_type.sh"],
+    "u_encodety": ["replay/c19/vtable_name_collision.sh"],
+    "u_refname": ["replay/c19/ref_cell_case.sh"],
+    "u_dynnames": ["replay/c19/dyn_helper_kinds.sh"],
+    "u_tuplehelper": ["replay/c19/tuple_helper_user_type.sh"],
     "u_liftty": ["replay/c08/nested_tuple.sh", "replay/c08/closure_callee.sh", "replay/c08/closure_returns_closure.sh", "replay/c08/nested_tuple_literal.sh"],
     "u_tastlit": ["replay/c10/run.sh"],
     "u_fmtverb": ["replay/c10/float_to_string.sh"],
